@@ -18,6 +18,17 @@ Case layout (a case = a block of pipelines, pure function of (seed, n)):
   MAPK blocks  : the preset with arbitrary inputs / tier factors / structural perturbations;
   random blocks: 1..5 stages from an extended behaviour alphabet (signal-dependent and stateful gates,
                  identity/None processors, None recoveries), each cascade run twice;
+  twin blocks  : "equal-but-distinct" configuration - stage names are labels and "every stage" is every POSITION of the
+                 pipeline: several stages carry one name (incl. the empty name; equal, not identical str objects), the very
+                 same CascadeStage object sits at two or three positions, one callable is the checkpoint / processor /
+                 handler of several stages (of one name class, of the whole pipeline, or drawn from a pool of two). The
+                 stubs of this layer are pool callables that do not know their stage; every invocation is attributed to a
+                 position at call time (exact when the callable is bound once, otherwise the position whose turn it is in
+                 pipeline order - see the comment above `Tracker`) and behaves as scripted for THAT position. Complete
+                 sweep: 2 stages x 48 behaviours and 3 stages x 16 behaviours (thorough: 3 x 48, and 4 x 16 on three
+                 partitions) x every partition with a shared class x 4 sharing modes x halt in {T,F}; plus sampled 2..5-stage
+                 pipelines from the extended alphabet, each run twice. Mechanism keys get the suffix `:twin-stages`.
+                 The MAPK blocks also add a second stage named like a tier; a third of the overlap configurations share names.
   overlap blocks: ONE long-lived cascade object per configuration whose runs OVERLAP: (a) re-entrant - a checkpoint /
                  processor / error handler / on_stage_complete callback of a run calls run() on the same object (nesting
                  depth <= 3); (b) 2-3 real threads each calling run() under the controlled scheduler of rv.sched
@@ -38,13 +49,18 @@ PID = "C19"
 LEVEL = "fault_enumeration"
 TECHNIQUE = ("runtime monitoring: scripted logging stubs for every checkpoint/processor/error handler of the real "
              "Cascade (signal identity recorded), invocation log + CascadeResult judged against fail-closed rules; "
-             "behaviour product enumerated by mixed-radix decoding; overlapping runs of one cascade object driven "
+             "behaviour product enumerated by mixed-radix decoding; pipelines with equal stage names / one stage object at "
+             "several positions / callables shared between stages, stubs attributing every invocation to a pipeline "
+             "position; overlapping runs of one cascade object driven "
              "re-entrantly from callbacks and from real threads under a line-granularity controlled scheduler, each "
              "run judged against its own per-run log")
 RULE = ("sweep = every pipeline of 1..K stages (K=3 quick, K=4 thorough) over 48 behaviours per stage "
         "(checkpoint absent/pass/reject/raise x processor pass/raise x handler absent/recover/raise x required T/F) "
         "x halt_on_failure T/F, complete; 5-stage (and in quick 4-stage) pipelines are sampled from an extended alphabet; "
         "overlap layer: sampled 1..5-stage shared cascades x per-run scripts x (nesting site | seeded schedule); "
+        "twin layer: 2..3-stage pipelines (thorough: ..4) over every name partition with a shared class x "
+        "{equal names | one stage object at several positions | shared callables | shared callables, unique names}, "
+        "complete over the stated alphabets, 2..5 stages sampled; "
         "non-trivial = a fault was injected and reached (a gate rejected or raised, or a processor raised); "
         "distinct = (stage count, halt setting, per-stage outcome vector, reported success)")
 ASSUMPTIONS = [
@@ -54,6 +70,11 @@ ASSUMPTIONS = [
     "amplification factors are finite and >= 0; run_parallel is outside the statement",
     "'a run' is one invocation of Cascade.run: when runs of one Cascade object overlap (re-entrant call from a callback, or "
     "another thread), each returned result is judged against the callbacks invoked for that invocation only",
+    "'every stage' = every position of the pipeline: stage names are labels (several stages may carry one), the same "
+    "CascadeStage object or the same callable at two positions makes two stages, each of which has to complete",
+    "an invocation of a callable bound at several positions is attributed to the position whose turn it is in pipeline order "
+    "(stages consulted in order: checkpoint, processor, on_error); where that position does not carry the callable the rest "
+    "of the run's log is not judged (counted as twin_runs_with_unattributable_invocation; 0 on the unchanged tree)",
     "thread interleavings are explored at statement granularity of the Cascade class plus callback entries (rv.sched); "
     "preemption inside a single statement is not explored",
 ]
@@ -226,7 +247,7 @@ def plan(tier):
             "twin_shared_callable_invocations": 50000, "twin_invocations_attributed_in_pipeline_order": 50000,
             "twin_runs_completed_twin_beside_uncompleted_twin": 5000,
             "twin_runs_all_stages_reached_one_twin_failed": 1000,
-            "mapk_runs_with_duplicate_tier_name": 100,
+            "mapk_runs_with_duplicate_tier_name": 60,
         },
     }
 
@@ -759,7 +780,7 @@ def case_mapk(ctx, n, tp):
 TW_MODES = ["names-only", "same-stage-object", "same-callables", "same-callables-unique-names"]
 TW_PARTS = {2: [[0, 0]],
             3: [[0, 0, 0], [0, 0, 1], [0, 1, 0], [0, 1, 1]],
-            4: [[0, 0, 0, 0], [0, 0, 1, 1], [0, 1, 0, 1], [0, 1, 1, 0], [0, 0, 0, 1], [0, 1, 2, 0], [0, 1, 1, 2]]}
+            4: [[0, 0, 1, 1], [0, 1, 1, 0], [0, 1, 2, 0]]}      # 4 stages: a sample of the partitions (thorough tier)
 # reduced alphabet (cp, proc, handler) x required, indices into DEC's component spaces
 _RED8 = [(0, 0, 0), (1, 0, 0), (2, 0, 0), (3, 0, 0), (0, 1, 0), (0, 1, 1), (1, 1, 2), (1, 1, 1)]
 ALPHA = {48: DEC, 16: [(c, p_, h, req) for req in (True, False) for (c, p_, h) in _RED8]}
